@@ -59,7 +59,10 @@ def cases(ctx):
         r = rng.random()
         key = 'k' if r < 0.6 else (('k', 'j') if r < 0.85 else (['k'] if f.startswith('aggregate') else ['k', 'j']))
         if f in ('groupselectfirst', 'groupselectlast', 'groupselectmin', 'groupselectmax', 'rowreduce', 'rowgroupmap', 'fold') and rng.random() < 0.25:
-            key = 0          # the key as a field index (index 0 included); these forms do not echo the key argument in their header
+            # the key as field index / indices (index 0 included); these forms do not echo the key argument in their header
+            key = rng.choice([0, 0, 1, (0, 1), (1,), (0,), [1, 0]])
+        elif rng.random() < 0.08 and f not in ('valuecounts', 'valuecounter'):
+            key = rng.choice([('k',), ('j',), 'j'])      # a one-element tuple selects the same single field as the bare name
         if f == 'groupcountdistinctvalues':
             key = 'k'        # documented for "the `key` field" only
         c = {'form': f, 'table': t, 'key': key, 'buffersize': rng.choice([None, None, 1, 2, 3]), 'presorted': rng.random() < 0.2}
